@@ -174,7 +174,7 @@ def compare(prop, case_lines, res):
         if spec == "ANY": res.any += 1
         elif not same(impl, spec):
             res.spec_fail.append({"case": lhs, "impl": impl[:2000], "spec": spec[:2000], "model": model[:2000], "kind": "impl-vs-spec"})
-        if not same(impl, model):
+        if model != "ANY" and not same(impl, model):
             res.model_fail.append({"case": lhs, "impl": impl[:2000], "model": model[:2000], "spec": spec[:2000], "kind": "impl-vs-model"})
         if len(res.samples) < 6 and (res.n % 211 == 1):
             res.samples.append((lhs + " => " + impl)[:400] + " || model=" + model[:100] + " spec=" + spec[:100])
